@@ -13,7 +13,7 @@ EXPLANATION = (
     "and the Builder's parameter names for the same opcode - Rust evaluates struct-literal fields in source order, so the n-th "
     "written field receives the n-th operand. Walk shape of LiftContext::convert by the path conditions of each append/push site. "
     "That lifting succeeds (the lifter panics by design on unsupported input) and equality of lifted values are not decided.")
-EXHAUSTIVE = True
+EXHAUSTIVE = False     # the abstract inputs are a stated finite scope, not the whole input space
 
 LIFT = "rspirv::lift"
 
